@@ -259,7 +259,7 @@ def run_template(name, repo_src, workdir, canary=True, rlimit=None):
             # the canary asks Z3 to prove `false`; where it cannot, a long search adds nothing: a contradiction among
             # requires / invariants / assumed contracts is found quickly, so the canary run gets a small resource limit
             # (a function that hits it has not proved false)
-            cres = run_verus(cpath, workdir, rlimit if rlimit else 4)
+            cres = run_verus(cpath, workdir, 4 if rlimit else 1)     # thorough tier (rlimit given): a longer search for `false`
             failing = set()
             for d in cres['diags']:
                 if d.get('level') != 'error':
